@@ -198,6 +198,10 @@ def validate_taxonomy_tree(
                     "(this requirement makes serialization/deserialization "
                     "with JSON more straightforward)")
 
+    if len(hierarchy) == 0 or len(taxonomy_tree[hierarchy[0]]) == 0:
+        raise RuntimeError(
+            "taxonomy has no nodes at its top level")
+
     for level in hierarchy:
         child_to_parent[level] = dict()
 
